@@ -21,6 +21,15 @@ func (c *DefaultCrawler) queryPeer(ctx context.Context, nextPeer peer.AddrInfo) 
   loop 0 invariant 0 <= cpl && localPeers != nil
   loop over peers invariant localPeers != nil
   ghost at assign(localPeers[ai.ID]): assert(localPeers != nil)
+  # a successful result comes from asking the peer about ALL 16 buckets
+  # (common prefix lengths 0..15), one query per bucket, each sent to this peer
+  ghostvar $asked int = 0
+  loop 0 invariant $asked == cpl && cpl <= 16 && imp(retErr != nil, false)
+  ensures [successful-crawl-asked-all-16-buckets] imp(result.err == nil && result.data != nil, $asked == 16)
+  ghost at before call(GenRandPeerID): assert($arg0 == cpl && cpl == $asked)
+  ghost at before call(GetClosestPeers): assert($arg1 == nextPeer.ID && $arg2 == generatePeer)
+  ghost at call(GetClosestPeers): $asked = $asked + ite($ret1 == nil, 1, 0)
+  ghost at before call(Connect): assert($arg1 == nextPeer)
 
 # Work list. $all/$n is the sequence of every peer ever put on the dial list,
 # $idx its inverse; toDial is the not yet dispatched suffix $all[$head:].
